@@ -48,7 +48,13 @@ ConvTable == { CV("km", "m", 3), CV("m", "km", -3), CV("m", "cm", 2), CV("cm", "
                CV("m3/mol/s", "1/M/s", 3), CV("1/M/s", "m3/mol/s", -3), CV("M", "mol/m3", 3),
                CV("mol/m3", "M", -3), CV("kJ/mol", "J/mol", 3), CV("g", "kg", -3), CV("kg", "g", 3),
                CV("ms", "s", -3), CVm("hour", "s", 0, 3600), CVm("min", "s", 0, 60), CVm("hour", "min", 0, 60),
-               CVm("hour", "ms", 3, 3600), CV("s", "ms", 3), CV("km", "cm", 5) }
+               CVm("hour", "ms", 3, 3600), CV("s", "ms", 3), CV("km", "cm", 5),
+               \* pure numbers in scaled ratio units: dimensionless, but the unit still says what the number counts
+               \* ("1" = the dimensionless unit, percent = 1/100, mM/M = 1/1000, cm/m = 1/100, mm/km = 1/10^6)
+               CV("1", "percent", 2), CV("percent", "1", -2), CV("mM/M", "percent", -1), CV("percent", "mM/M", 1),
+               CV("cm/m", "percent", 0), CV("mM/M", "1", -3), CV("1", "mM/M", 3), CV("mm/km", "mM/M", -3),
+               CV("cm/m", "mm/km", 4) }
+RatioUnits == {"1", "percent", "mM/M", "cm/m", "mm/km"}
 ConvOf(f, t) == CHOOSE c \in ConvTable : c.from = f /\ c.to = t
 
 (* options of the call that must not change what is denoted:                                          *)
@@ -357,6 +363,7 @@ Class ==
          \o (IF opt # DefaultOpt THEN "-opt" ELSE "") \o (IF opt.impl THEN "-impl" ELSE "")
          \o (IF opt.fsty = "e" THEN "-e" ELSE "") \o (IF opt.xty # "float" THEN "-" \o opt.xty ELSE "")
          \o (IF opt.api # "number" THEN "-" \o opt.api ELSE "")
+         \o (IF DisplayName \in RatioUnits THEN "-ratio" ELSE "")
          \o (IF conv # NoConv THEN "-conv" ELSE "")
     ELSE IF mode = "uncert"
     THEN "unc-" \o (IF out.chosen.hasexp THEN "exp" ELSE "plain")
@@ -366,6 +373,7 @@ Class ==
          \o (IF conv # NoConv THEN "-conv" ELSE "") \o "-" \o usrc
          \o (IF opt.impl THEN "-impl" ELSE "") \o (IF opt.ucv # NoConv THEN "-ucv" ELSE "")
          \o (IF opt.xty # "float" THEN "-" \o opt.xty ELSE "")
+         \o (IF DisplayName \in RatioUnits THEN "-ratio" ELSE "")
     ELSE "roman"
 CaseRec ==
     IF mode = "number"
